@@ -48,6 +48,9 @@ def check(model: Model, rep: Report, tier: str):
                             keep=lambda c: "/structure/" in c.module.relpath.replace("\\", "/") and ("graph" in c.module.relpath or "composite" in c.module.relpath), floor=3)
     with rep.isolated():
         f8(model, rep)
+    from .common import idle_wait_channel_rule
+    with rep.isolated():
+        idle_wait_channel_rule(model, rep, "C11.F11")
     from .c01 import r13 as _r13
     with rep.isolated():
         share_rule(rep, model, _r13, "C11.F10", "a nested block reports the channels of all its operations, a flattened circuit asks each operation itself: both give the same implicit "
